@@ -1,6 +1,7 @@
 """C06 — note-length quantisation yields only allowed durations and never moves onsets."""
 import gens as G
 import h4seq_util as U
+import h2bars_util as U2
 import pyimpl as P
 from oracle_util import *  # noqa
 from protocol import from_real
@@ -16,7 +17,9 @@ CLAUSES = [
      "is closest to the original among the allowed values that fit, and the note is removed exactly when none fits",
      ["SCoda.C06.qnlChannel_spec", "SCoda.C06.validDurations_spec", "SCoda.C06.nearest_spec"]),
     ("glue (first half): on a sorted well-formed list the per-channel pairings are exactly its notes, no imputation", ["SCoda.Notes.pairings_notes"]),
-    ("the notes of the result are the original notes, each removed or given a new end on + x where x is an allowed value that fits before the next onset of its "
+    ("FOR LISTS OF POSITIVE VALUES (hypothesis `forall v in values, 0 < v` of qnl_notes / qnl_durations / qnl_wf; a value <= 0 that is chosen puts the note-off at or "
+     "before its note-on and the result is ill-formed: known finding D39, replayed on the implementation) "
+     "the notes of the result are the original notes, each removed or given a new end on + x where x is an allowed value that fits before the next onset of its "
      "channel and pitch (and is not longer than the note when extension is disabled), closest to the original duration; removed exactly when none fits; "
      "hence allowed durations only, onsets/pitch/channel/velocity unchanged, no overlap, well-formed result",
      ["SCoda.C06.qnl_notes", "SCoda.C06.qnl_durations", "SCoda.C06.qnl_no_overlap", "SCoda.C06.qnl_wf"]),
@@ -28,9 +31,34 @@ CLAUSES = [
      ["SCoda.SortTie.sort_eq", "SCoda.SortTie.sortOf_eq_isort", "SCoda.SortTie.sort_raises", "SCoda.SortTie.sortOf_raises", "SCoda.SortTie.sort_ok_iff", "SCoda.SortTie.keyLe_iff", "SCoda.SortTie.keyLt_eq", "SCoda.SortTie.keyLt_ok_iff_comparable", "SCoda.SortTie.messageTypeLt_eq", "SCoda.SortTie.messageTypeLt_nonmember", "SCoda.SortTie.members_eq", "SCoda.SortTie.memberNames_eq", "SCoda.SortTie.generated_order_strictWeakOrder", "SCoda.SortTie.any_stable_sort_eq_sortAbs", "SCoda.SortTie.stable_sort_is_isortBy", "SCoda.SortTie.isortBy_is_stable_sort", "SCoda.SortTie.sortDom_of_wellFormed", "SCoda.SortTie.sortRefs_discharged", "SCoda.SortTie.viewSort_discharged", "SCoda.SortTie.sort_eq_statement_false", "SCoda.SortTie.keyLe_iff_statement_false"]),
 ]
 RULE = ("well-formed multi-channel note sets (<=8 notes, back-to-back repeated pitches, very short notes) x value lists "
-        "(defaults, lists with duplicates, single values) x extension on/off; non-trivial = some note's duration not in the list")
-ASSUMPTIONS = ["model: SCoda.quantiseNoteLengths + SCoda.pairings, tied by correspondence"]
+        "(defaults, lists with duplicates, single values; since audit round 4 also lists holding 0 and negative values, about 12 % of the cases) "
+        "x extension on/off; non-trivial = some note's duration not in the list")
+ASSUMPTIONS = ["model: SCoda.quantiseNoteLengths + SCoda.pairings, tied by translation (AbsTie2) and sampled by correspondence (lists with a negative value are left "
+               "out of the correspondence: a tick of -1 is the line protocol's None)",
+               "reading (audit round 4, A4): `any list of allowed values` includes 0 and negative values; the text's result for a note whose closest fitting value "
+               "is x <= 0 is the note with its note-off x ticks after its note-on; the code delivers those events but sorted off-before-on (D39)"]
 VALUE_LISTS = [[24, 12, 6, 16, 8, 4, 36, 18, 9], [12, 12, 24], [6], [4, 8], [48, 24], [3, 5], [1], [96]]
+# audit round 4, A4: "any list of allowed values" — lists with the value 0 and with negative values (known finding D39) were never drawn
+NONPOSITIVE_VALUE_LISTS = [[0, 24], [24, 0], [0], [12, 0, 24, 6], [-24, 24], [-1, 24], [6, -1, 12], [0, -3, 48], [-5]]
+
+
+def qnl_text_prediction(pre, values, dne):
+    """the property text, applied note by note to the well-formed input `pre` (timed events in canonical order): per (channel, pitch) in onset
+    order a note keeps its note-on and gets the allowed value closest to its length among those that fit before the next onset of its key
+    (and are not longer than the note when extension is disabled) — of several closest values the first of the list, the documented
+    tie-break of find_minimal_distance —, or is removed when none fits.  Returns [(channel, pitch, on, chosen value, velocity)]: the chosen
+    value may be 0 or negative when the list holds such values (they always fit)."""
+    by_key, out = {}, []
+    for n in notes_of(pre):
+        by_key.setdefault((n[0], n[1]), []).append(n)
+    for k, lst in by_key.items():
+        lst.sort(key=lambda n: n[2])
+        for i, (c, p, on, off, v) in enumerate(lst):
+            nxt = lst[i + 1][2] if i + 1 < len(lst) else None
+            fit = [x for x in values if (nxt is None or on + x <= nxt) and (not dne or x <= off - on)]
+            if fit:
+                out.append((c, p, on, min(fit, key=lambda x: abs(x - (off - on))), v))
+    return out
 
 
 def o_qnl(inp):
@@ -51,10 +79,6 @@ def o_qnl(inp):
         # relative view must show the same timed events and duration
         out = [from_real(m) for m in s_.abs._messages]
         out_rel = [from_real(m) for m in s_.rel._messages]
-        if U.content_abs(out) != U.content_rel(out_rel):
-            return [("views", f"after quantise_note_lengths from state '{inp['state']}' the relative view does not show what the absolute view shows")]
-        if not all_int_times(out) or not all_int_times(out_rel):
-            return [("int", "non-integer tick after quantise_note_lengths")]
     else:
         s = P.mk_abs(a)
         try:
@@ -66,7 +90,14 @@ def o_qnl(inp):
     tout = [(m[TIME], m) for m in out if m[TY] != INTERNAL]
     fails = []
     if wf_violations(tout):
-        return [("no-overlap", f"output notes not well-formed: {wf_violations(tout)[:3]}")]
+        # the observed events travel with the failure: known finding D39 (a non-positive allowed value) PREDICTS them
+        return [("no-overlap", U2.Detail(f"output notes not well-formed: {wf_violations(tout)[:3]}", out=[m for _, m in tout], bad=wf_violations(tout)))]
+    if inp.get("state"):
+        # (judged after the well-formedness of the absolute view, audit round 4: an ill-formed result is reported as such, with its events)
+        if U.content_abs(out) != U.content_rel(out_rel):
+            return [("views", f"after quantise_note_lengths from state '{inp['state']}' the relative view does not show what the absolute view shows")]
+        if not all_int_times(out) or not all_int_times(out_rel):
+            return [("int", "non-integer tick after quantise_note_lengths")]
     nin = notes_of(tin)
     nout = notes_of(tout)
     if inp.get("state"):
@@ -116,12 +147,42 @@ def o_qnl(inp):
     return fails
 
 
+# D39 (audit round 4, A4): the allowed value 0 is the closest fitting value for the note [0,5) — it comes back as note-off BEFORE note-on
+D39_EXAMPLE = {"abs": [G.pm(ON, 0, 0, note=60, vel=64), G.pm(OFF, 0, 5, note=60), G.pm(ON, 0, 30, note=60, vel=64), G.pm(OFF, 0, 54, note=60)],
+               "values": [0, 24], "dne": False}
+# D39, second member: a negative allowed value (the audit calls them harmless: [-24, 24] is, because -24 is never the closest; -1 is not)
+D39_EXAMPLE2 = {"abs": [G.pm(ON, 0, 0, note=60, vel=64), G.pm(OFF, 0, 5, note=60), G.pm(ON, 0, 30, note=60, vel=64), G.pm(OFF, 0, 54, note=60)],
+                "values": [-1, 24], "dne": True}
+
+
 def setup(ctx):
     ctx.oracle("qnl", o_qnl)
+
+    def kf_d39(f):
+        # OUTCOME: the list of allowed values holds a value <= 0, the result is ill-formed, and its events are exactly the text's result —
+        # every note keeps its note-on and gets its note-off `chosen value` after it, non-note events untouched — in the order of the absolute
+        # view's sort key (tick, channel, type with note-off before note-on, pitch), with at least one note whose chosen value is <= 0 (its
+        # note-off therefore stands before its note-on: D17 / D22's mechanism).  Any other ill-formed result is a VIOLATION.
+        d = U2.data_of(f)
+        inp = f["input"]
+        if f["clause"] != "no-overlap" or "out" not in d or not any(x <= 0 for x in inp["values"]):
+            return False
+        a = [tuple(m) for m in inp["abs"]]
+        pre, _ = abs_timed(sorted(a, key=lambda m: (m[2], m[1], m[0], -1 if m[3] is None else m[3])))
+        chosen = qnl_text_prediction(pre, list(inp["values"]), inp["dne"])
+        if not any(x <= 0 for (_, _, _, x, _) in chosen):
+            return False
+        want = [(on, c, ON, p, v) for (c, p, on, x, v) in chosen] + [(on + x, c, OFF, p, None) for (c, p, on, x, v) in chosen]
+        got = [(m[TIME], m[CH], m[TY], m[NOTE], m[VEL]) for m in d["out"] if m[TY] in (ON, OFF)]
+        others_same = non_note([(m[TIME], m) for m in d["out"]]) == non_note(pre)
+        return others_same and got == sorted(want, key=lambda e: (e[0], -1 if e[1] is None else e[1], e[2], e[3]))
+    ctx.kf_predicates["D39"] = kf_d39
 
 
 def generate(ctx):
     rng = ctx.rng
+    ctx.check("qnl", D39_EXAMPLE)       # the recorded instances of the known finding
+    ctx.check("qnl", D39_EXAMPLE2)
     for i in range(ctx.n(400, 15000)):
         chans = rng.choice([(0, 1), (0, 1), (0, 1, 2), (0, 5, 9, 15)])
         ctx.count("channels:%d" % len(chans))
@@ -132,13 +193,26 @@ def generate(ctx):
         values = rng.choice(VALUE_LISTS)
         if rng.random() < 0.3:      # random list: duplicates and any order allowed
             values = [rng.choice([1, 2, 3, 4, 6, 8, 9, 12, 16, 18, 24, 36, 48]) for _ in range(rng.randint(1, 6))]
+        if rng.random() < 0.12:
+            # "any list of allowed values": 0 and negative values among them (audit round 4, A4; known finding D39 when one is chosen)
+            values = rng.choice(NONPOSITIVE_VALUE_LISTS) if rng.random() < 0.5 else \
+                [rng.choice([0, 0, -1, -6, -24, 1, 3, 6, 12, 24, 48]) for _ in range(rng.randint(1, 5))]
+            ctx.count("values:with-a-non-positive-value")
+            if 0 in values:
+                ctx.count("values:with-0")
         dne = rng.random() < 0.5
         ctx.case((a, values, dne), any(n[3] not in values for n in notes))
         ctx.check("qnl", {"abs": a, "values": values, "dne": dne})
         if i % 3 == 0:
             ctx.count("wrapper-states")
             ctx.check("qnl", {"abs": a, "values": values, "dne": dne, "state": rng.choice(P.SEQ_STATES)})
-        ctx.corr("qnl", P.op_qnl(values, 24, dne, a))
+        if any(x < 0 for x in values):
+            # a negative allowed value can put a note-off on tick -1, which the line protocol of the Lean driver cannot tell from None (the
+            # sentinel -1 = None of harness/protocol.py): such lists are judged by the oracle (D39) and left out of the correspondence; lists
+            # with the value 0 are compared as usual
+            ctx.count("corr:qnl:skipped(negative allowed value: tick -1 is the protocol's None)")
+        else:
+            ctx.corr("qnl", P.op_qnl(values, 24, dne, a))
         ctx.corr("pairings", P.op_pairings([6, 7], 24, True, a))
         ctx.count("dne" if dne else "extend")
         ctx.sample({"abs": a, "values": values, "dne": dne})
